@@ -177,14 +177,19 @@ func (srv *Server) serve(ctx context.Context, conn net.Conn) error {
 // all commands that have been started are completed. It is safe to call Close
 // multiple times, also concurrently.
 func (srv *Server) Close() error {
+	verifPoint("close.enter", srv)
 	srv.mu.Lock()
+	verifPoint("close.locked", srv)
 	if !srv.closing.Load() {
 		srv.closing.Store(true)
 		close(srv.closer)
 	}
+	verifPoint("close.decided", srv)
 	srv.mu.Unlock()
 
+	verifPoint("close.waiting", srv)
 	srv.wg.Wait()
+	verifPoint("close.return", srv)
 	return nil
 }
 
@@ -194,10 +199,12 @@ func (srv *Server) admit() bool {
 	srv.mu.Lock()
 	defer srv.mu.Unlock()
 
+	verifPoint("cmd.locked", srv)
 	if srv.closing.Load() {
 		return false
 	}
 
 	srv.wg.Add(1)
+	verifPoint("cmd.added", srv)
 	return true
 }
